@@ -4,6 +4,8 @@ import Model.KNSpec
 import Model.KNQuery
 import Proofs.KNNorm
 import Proofs.KNTable
+import Proofs.KNCorpus
+import Proofs.KNProb
 /-!
 # C06 — lmplz output is a proper, closed, loadable language model
 
@@ -86,6 +88,59 @@ theorem normalised_table1 (cfg : Cfg) (fallback : Option Disc) (full : Spec.Tabl
 theorem tableOK_of_wf {cfg : Cfg} {full : Spec.Table} (hw : Spec.TableWF cfg full) (discs : List (Disc × Bool)) :
     TableOK (specCtx cfg full discs) :=
   KV.KN.Norm.tableOK_of_wf hw discs
+
+/-- **normalised, for every corpus**: for every non-empty corpus of ordinary words (ids ≥ 3,
+i.e. no `<s>`, `</s>`, `<unk>` tokens — lmplz rejects or skips them), every order ≥ 2, every
+non-decreasing prune-threshold vector, every excluded-word set, both `--interpolate_unigrams`
+settings and whatever discounts were used: in the model the specification estimates, the
+back-off probabilities of all vocabulary words except `<s>` sum to exactly one for **every**
+context (any word list of any length, in the model or not). -/
+theorem normalised_corpus (cfg : Cfg) (pv : Bool) (fallback : Option Disc) (corpus : List (List Word))
+    (m : Model) (hm : Spec.estimate cfg pv fallback corpus = .ok m) (h2 : 2 ≤ cfg.order)
+    (hne : corpus ≠ []) (hw : ∀ s ∈ corpus, ∀ w ∈ s, 3 ≤ w)
+    (hthr : ∀ i, i < cfg.order - 1 → cfg.thr i ≤ cfg.thr (i + 1)) (ctx : Gram) :
+    ((Query.vocabNoBos m.orders).map (Query.score m.orders ctx)).sum = 1 :=
+  KV.KN.Norm.normalised_corpus cfg pv fallback corpus m hm h2 hne hw hthr ctx
+
+/-- the order-1 model -/
+theorem normalised_corpus1 (cfg : Cfg) (pv : Bool) (fallback : Option Disc) (corpus : List (List Word))
+    (m : Model) (hm : Spec.estimate cfg pv fallback corpus = .ok m) (h1 : cfg.order = 1)
+    (hne : corpus ≠ []) (hw : ∀ s ∈ corpus, ∀ w ∈ s, 3 ≤ w) (ctx : Gram) :
+    ((Query.vocabNoBos m.orders).map (Query.score m.orders ctx)).sum = 1 :=
+  KV.KN.Norm.normalised_corpus1 cfg pv fallback corpus m hm h1 hne hw ctx
+
+/-- the count table of every corpus satisfies the hypotheses of `normalised_table` -/
+theorem tableWF_countFull (cfg : Cfg) (corpus : List (List Word)) (h2 : 2 ≤ cfg.order)
+    (hne : corpus ≠ []) (hw : ∀ s ∈ corpus, ∀ w ∈ s, 3 ≤ w)
+    (hthr : ∀ i, i < cfg.order - 1 → cfg.thr i ≤ cfg.thr (i + 1)) :
+    Spec.TableWF cfg (countFull cfg.order corpus) :=
+  KV.KN.Norm.tableWF_countFull cfg corpus h2 hne hw hthr
+
+example : ∃ (cfg : Cfg) (corpus : List (List Word)), 2 ≤ cfg.order ∧ corpus ≠ [] ∧ (∀ s ∈ corpus, ∀ w ∈ s, 3 ≤ w) ∧
+    (∀ i, i < cfg.order - 1 → cfg.thr i ≤ cfg.thr (i + 1)) :=
+  ⟨{ order := 3, thr := fun i => if i = 0 then 0 else 1, excl := fun _ => false }, [[3, 4], [3], [4, 3, 5]],
+   by decide, by decide, by decide, by decide⟩
+
+/-- **prob_le_zero**: every written probability is in `[0, 1]` (so its `log10` is ≤ 0) and every
+back-off weight is ≥ 0, for every corpus, when the user's fallback discounts are in range
+(`ParseDiscountFallback` enforces `0 ≤ Dⱼ ≤ j`; the closed form is range-checked by the code). -/
+theorem prob_le_zero (cfg : Cfg) (pv : Bool) (fallback : Option Disc) (corpus : List (List Word))
+    (m : Model) (hm : Spec.estimate cfg pv fallback corpus = .ok m) (h2 : 2 ≤ cfg.order)
+    (hne : corpus ≠ []) (hw : ∀ s ∈ corpus, ∀ w ∈ s, 3 ≤ w)
+    (hthr : ∀ i, i < cfg.order - 1 → cfg.thr i ≤ cfg.thr (i + 1))
+    (hfb : ∀ f, fallback = some f → DiscOK f) :
+    ∀ l ∈ m.orders, ∀ e ∈ l, 0 ≤ e.p ∧ e.p ≤ 1 ∧ 0 ≤ e.bo :=
+  KV.KN.Norm.prob_le_one_corpus cfg pv fallback corpus m hm h2 hne hw hthr hfb
+
+/-- the back-off query itself is a probability for every context and vocabulary word -/
+theorem score_bounds (cfg : Cfg) (pv : Bool) (fallback : Option Disc) (corpus : List (List Word))
+    (m : Model) (hm : Spec.estimate cfg pv fallback corpus = .ok m) (h2 : 2 ≤ cfg.order)
+    (hne : corpus ≠ []) (hw : ∀ s ∈ corpus, ∀ w ∈ s, 3 ≤ w)
+    (hthr : ∀ i, i < cfg.order - 1 → cfg.thr i ≤ cfg.thr (i + 1))
+    (hfb : ∀ f, fallback = some f → DiscOK f) (ctx : Gram) (w : Word)
+    (hwv : w ∈ Query.vocabNoBos m.orders) :
+    0 ≤ Query.score m.orders ctx w ∧ Query.score m.orders ctx w ≤ 1 :=
+  KV.KN.Norm.score_bounds_corpus cfg pv fallback corpus m hm h2 hne hw hthr hfb ctx w hwv
 
 /-! ## header counts, specials, closure -/
 
